@@ -24,6 +24,10 @@ CLAIMS = {
    text="GlobalGrid.tla is the gv singleton as a state machine (Call with any subset of sps/R/fs/wavelength/N/custom keywords following the branch structure of __call__, Clean); TLC explores its complete reachable state space (finite: ~2.4k states, 1M transitions; wider domains in thorough) and proves GridConsistent, CleanRestores, CustomPersists, NSticky for histories of any length. Every history of length <= 2 produced by TLC is replayed on the real singleton with all fields of the statement compared (sps,R,fs,dt,wavelength,f0,N,len(t),len(w),w values,dw,custom), and long random histories recorded on the real singleton are accepted/rejected by the stateful trace spec GlobalGridTrace (design actions + logged primed state). Purity: World.tla/WorldTrace.tla monitor recorded histories of ~36 public device/codec/DSP/utility calls interleaved with np.random.seed and gv reconfigurations: gv and argument digests unchanged, RNG untouched by deterministic functions, results a function of (name,args,gv[,RNG state]) via a memo, no aliasing.",
    note="trusted: TLC, sha1 digests interned to integers; rates restricted to commensurate values (the statement's domain); execution_time, warnings filter and tic/toc stack excluded; world histories sample call orders (3x110 events quick, 12x250 thorough) - they are not exhaustive",
    technique="TLA+ state machine + TLC complete state-space exploration + replay of TLC histories + stateful TLC trace validation"),
+ "C20": dict(level="model_checking",
+   text="PPG.tla specifies the driver against a simulated instrument in integer instrument units (channel normalisation/clipping, clamp-and-warn per limit, nearest PRBS order, IEEE-488.2 block splitting at consecutive addresses, paged pattern memory); PPGModel.tla explores every setter x 7 request classes per limit x 12 channel selections (scalar and per-channel lists) and all histories of <= 2 (3) set_data/get_data operations on a small memory (Chunk=4, MaxMem=12) with EveryCmdInRange, ChunkingCorrect and RoundTrip; Sync.tla proves that exact cross-correlation finds every delay for every unique-peak pattern of <= 5 slots. Every TLC state is executed on the real PPG3204 attached to a fake VISA session (instance constants shadowed to the model's), the SCPI strings are parsed and the whole log is judged by the stateful monitor PPGTrace.tla, which keeps the instrument memory; random histories with the real constants (1024-bit blocks, 2^21 memory, data lengths to 10^4 across block boundaries, requests over several decades) and SYNC runs (PRBS7/9, every delay class, noise up to 10 %) are judged by the same monitor; dry-run mode (printed commands) included.",
+   note="trusted: TLC; the fake instrument (documented IEEE-488.2 block format) and the SCPI parser of the harness; real hardware is out of scope; start addresses are taken inside 1..2^21 (the statement lists no limit for them)",
+   technique="TLA+ state machine + TLC exhaustive model checking + replay of every TLC state on the driver + stateful TLC trace monitor"),
 }
 
 
